@@ -1211,6 +1211,16 @@ def _reuse_param_names(fn, only=None, keep=()):
     return changed
 
 
+def _clone_stmt(st):
+    """a fresh copy of a statement (nodes of the analysed tree carry links to their parents: deepcopy would follow them
+    through the whole module)"""
+    new = ast.parse(ast.unparse(st)).body[0]
+    for n in ast.walk(new):
+        if hasattr(n, "lineno"):
+            n.lineno = getattr(st, "lineno", n.lineno)
+    return new
+
+
 def desugar_conditionals(stmts, counter=None):
     """Statement-level form of the conditional sub-expressions of simple statements, for engines that enumerate paths:
     ``x = F(a, B if c else C)``  ->  ``if c: t = B  else: t = C`` ; ``x = F(a, t)``     and
@@ -1221,7 +1231,7 @@ def desugar_conditionals(stmts, counter=None):
     counter = counter if counter is not None else [0]
     out = []
     for st in stmts:
-        st = copy.deepcopy(st)
+        st = _clone_stmt(st)
         if isinstance(st, ast.If):
             st.body = desugar_conditionals(st.body, counter)
             st.orelse = desugar_conditionals(st.orelse, counter)
@@ -1241,7 +1251,7 @@ def desugar_conditionals(stmts, counter=None):
             for c in cands:
                 counter[0] += 1
                 tmp = "cond__%d" % counter[0]
-                probe = copy.deepcopy(st)
+                probe = _clone_stmt(st)
                 hit = [False]
 
                 class _P(ast.NodeTransformer):
